@@ -162,7 +162,7 @@ def case(arg):
                           l2d_order[0] += 1
                       if len(r1[0]) != n and kn.split(":")[-1] != "seq":
                           return fail("count", f"ask({n}, False) returned {len(r1[0])} points", i, op)
-                      if rng.random() < 0.25 and kn.split(":")[-1] not in ("integ", "l2d", "avg1d"):
+                      if rng.random() < 0.25 and kn.split(":")[-1] not in ("integ", "l2d"):
                           # second clause: committing = the same answer, then marking each returned point pending.  Twin A commits,
                           # twin B asks without committing and marks the points itself; the twins must stay indistinguishable
                           ra = a.ask(n, tell_pending=True)
